@@ -119,23 +119,6 @@ func answerAsk(d *Driver, kind string, q M) any {
 			return nil
 		}
 		return M{"nat": int64(h)}
-	case "asn1OctetString":
-		var raw []byte
-		rest, err := asn1.Unmarshal(unhx(q["der"].(string)), &raw)
-		if err != nil || len(rest) != 0 {
-			return nil
-		}
-		return M{"bytes": hx(raw)}
-	case "appleNonce":
-		var v struct {
-			Nonce []byte `asn1:"tag:1,explicit"`
-		}
-		if _, err := asn1.Unmarshal(unhx(q["der"].(string)), &v); err != nil {
-			return nil
-		}
-		return M{"bytes": hx(v.Nonce)}
-	case "keyDescription":
-		return keyDescView(unhx(q["der"].(string)))
 	case "sanView":
 		c, err := x509.ParseCertificate(unhx(q["der"].(string)))
 		if err != nil {
@@ -385,17 +368,6 @@ type hKeyDescription struct {
 	UniqueID                 []byte
 	SoftwareEnforced         hAuthList
 	TeeEnforced              hAuthList
-}
-
-func keyDescView(der []byte) any {
-	var kd hKeyDescription
-	if _, err := asn1.Unmarshal(der, &kd); err != nil {
-		return nil
-	}
-	p := []int{}
-	p = append(p, kd.TeeEnforced.Purpose...)
-	return M{"challenge": hx(kd.AttestationChallenge), "swAll": bool(kd.SoftwareEnforced.AllApplications),
-		"teeAll": bool(kd.TeeEnforced.AllApplications), "teeOrigin": kd.TeeEnforced.Origin, "teePurpose": p}
 }
 
 func safetyNetView(raw []byte) any {
